@@ -178,6 +178,12 @@ func (e *Engine) typedHavocType(t types.Type, out map[string]bool) {
 
 // declaredMods translates a contract's modifies clause to heap names (statically).
 func (e *Engine) declaredMods(ct *Contract, fn *ssa.Function, sig *types.Signature, out map[string]bool) {
+	e.declaredModsAt(ct, fn, sig, nil, out)
+}
+
+// declaredModsAt: the same for one call site c (may be nil): items guarded by `when p is *T:` are dropped when the argument
+// passed for p is statically of another type.
+func (e *Engine) declaredModsAt(ct *Contract, fn *ssa.Function, sig *types.Signature, c *ssa.CallCommon, out map[string]bool) {
 	// evaluate the entries in a scratch unit with symbolic parameters
 	un := e.newUnit(fn, "scratch")
 	fr := &Frame{un: un, fn: fn, vals: map[ssa.Value]Val{}, pkgPath: ct.Pkg, clausePkg: ct.Pkg}
@@ -193,6 +199,10 @@ func (e *Engine) declaredMods(ct *Contract, fn *ssa.Function, sig *types.Signatu
 		for _, fv := range fn.FreeVars {
 			if pt, ok := fv.Type().Underlying().(*types.Pointer); ok {
 				bindParam(fv.Name(), pt.Elem())
+				// the captured variable itself (a cell or an object) can be named in a modifies clause
+				v := env[fv.Name()]
+				v.LVSelf = un.lvOfPointer(un.fresh("fv_"+fv.Name(), SInt), fv.Type())
+				env[fv.Name()] = v
 			}
 		}
 	}
@@ -225,7 +235,47 @@ func (e *Engine) declaredMods(ct *Contract, fn *ssa.Function, sig *types.Signatu
 		}
 	}()
 	var excepts []string
+	var items []string
 	for _, m := range ct.Modifies {
+		mm := strings.TrimSpace(m)
+		if strings.HasPrefix(mm, "effects(") && strings.HasSuffix(mm, ")") {
+			pn := strings.TrimSpace(mm[8 : len(mm)-1])
+			idx := -1
+			for i, p := range ct.Params {
+				if p.Name == pn {
+					idx = i
+				}
+			}
+			done := false
+			if c != nil && idx >= 0 {
+				ai := idx
+				if c.IsInvoke() {
+					ai = idx - 1 // the receiver is not among the arguments of an interface call
+				}
+				if ai >= 0 && ai < len(c.Args) {
+					if mc, ok := c.Args[ai].(*ssa.MakeClosure); ok {
+						e.fnMods(mc.Fn.(*ssa.Function), nil, out)
+						done = true
+					} else if fnv, ok := c.Args[ai].(*ssa.Function); ok {
+						e.fnMods(fnv, nil, out)
+						done = true
+					}
+				}
+			}
+			if !done {
+				out["*nonghost"] = true
+			}
+			continue
+		}
+		if g, rest, ok := modGuard(m); ok {
+			if c != nil && !e.guardMayHold(ct, g, c) {
+				continue
+			}
+			m = rest
+		}
+		items = append(items, m)
+	}
+	for _, m := range items {
 		if x, ok := exceptItem(m); ok {
 			for _, me := range fr.resolveMod(x, env, &st) {
 				excepts = append(excepts, me.heap)
@@ -236,7 +286,7 @@ func (e *Engine) declaredMods(ct *Contract, fn *ssa.Function, sig *types.Signatu
 		}
 	}
 	sort.Strings(excepts)
-	for _, m := range ct.Modifies {
+	for _, m := range items {
 		if _, ok := exceptItem(m); ok {
 			continue
 		}
@@ -301,7 +351,7 @@ func (e *Engine) calleeMods(caller *ssa.Function, c *ssa.CallCommon, out map[str
 				out["G_"+sanitize(strings.TrimPrefix(strings.TrimPrefix(rc.Kind, "records:"), "#"))] = true
 			}
 			if ct.HasMod {
-				e.declaredMods(ct, nil, c.Signature(), out)
+				e.declaredModsAt(ct, nil, c.Signature(), c, out)
 			} else if !ct.Pure {
 				out["*"] = true
 			}
@@ -370,7 +420,7 @@ func (e *Engine) fnMods(fn *ssa.Function, c *ssa.CallCommon, out map[string]bool
 		}
 		switch {
 		case ct.HasMod:
-			e.declaredMods(ct, fn, fn.Signature, out)
+			e.declaredModsAt(ct, fn, fn.Signature, c, out)
 		case ct.Pure:
 		case len(fn.Blocks) > 0:
 			for k := range e.modsOf(fn) {
@@ -570,4 +620,56 @@ func (e *Engine) loopMods(f *Frame, li *loopInfo) map[string]bool {
 	}
 	// calls through values bound in enclosing frames (closure parameters of inlined callees)
 	return out
+}
+
+// modGuard recognises a guarded modifies item, `when p is *T: item` (possibly behind a package marker), and returns the guard
+// ("pkg|p|*T") and the item with the marker kept.
+func modGuard(m string) (guard string, rest string, ok bool) {
+	m = strings.TrimSpace(m)
+	marker, pkg := "", ""
+	if strings.HasPrefix(m, "@@") {
+		if j := strings.Index(m[2:], "@@"); j >= 0 {
+			marker, pkg = m[:2+j+2], m[2:2+j]
+			m = strings.TrimSpace(m[2+j+2:])
+		}
+	}
+	if !strings.HasPrefix(m, "when ") {
+		return "", "", false
+	}
+	i := strings.Index(m, ":")
+	if i < 0 {
+		return "", "", false
+	}
+	f := strings.Fields(m[5:i])
+	if len(f) != 3 || f[1] != "is" {
+		return "", "", false
+	}
+	return pkg + "|" + f[0] + "|" + f[2], marker + strings.TrimSpace(m[i+1:]), true
+}
+
+// guardMayHold: can the argument passed for the guarded parameter have the guarded dynamic type at this call?
+func (e *Engine) guardMayHold(ct *Contract, guard string, c *ssa.CallCommon) bool {
+	parts := strings.SplitN(guard, "|", 3)
+	pkg, pname, tname := parts[0], parts[1], parts[2]
+	if pkg == "" {
+		pkg = ct.Pkg
+	}
+	idx := -1
+	for i, p := range ct.Params {
+		if p.Name == pname {
+			idx = i
+		}
+	}
+	if idx < 0 || idx >= len(c.Args) {
+		return true
+	}
+	mi, ok := c.Args[idx].(*ssa.MakeInterface)
+	if !ok {
+		return true
+	}
+	want := e.lookupTypeIn(tname, pkg)
+	if want == nil {
+		return true
+	}
+	return types.Identical(mi.X.Type(), want)
 }
